@@ -227,10 +227,25 @@ func (r *RibTable) GetAllEntries() []*RibEntry {
 
 		// If has any routes, add to list
 		if len(ribEntry.routes) > 0 {
-			entries = append(entries, ribEntry)
+			entries = append(entries, ribEntry.snapshot())
 		}
 	}
 	return entries
+}
+
+// snapshot returns a copy of the entry (name and routes) that later changes of
+// the RIB do not reach: the caller reads it after the RIB lock has been released.
+func (r *RibEntry) snapshot() *RibEntry {
+	c := &RibEntry{component: r.component, Name: r.Name, depth: r.depth, routes: make([]*Route, len(r.routes))}
+	for i, route := range r.routes {
+		rc := *route
+		if route.ExpirationPeriod != nil {
+			rc.ExpirationPeriod = new(time.Duration)
+			*rc.ExpirationPeriod = *route.ExpirationPeriod
+		}
+		c.routes[i] = &rc
+	}
+	return c
 }
 
 // GetRoutes returns all routes in the RIB entry.
